@@ -62,6 +62,15 @@ type pathState struct {
 	violations   []violation
 	queries      int
 	aborted      bool
+	replay       *replayInput
+	goroutines   int
+}
+
+// replayInput drives an engine-concrete replay of a recorded counterexample.
+type replayInput struct {
+	nondets []uint64
+	chooses []int64
+	next    int
 }
 
 type violation struct {
@@ -75,6 +84,7 @@ type violation struct {
 	Params   map[string]int    `json:"params"`
 	Decision string            `json:"decisions"`
 	Extra    map[string]string `json:"extra,omitempty"`
+	Goroutines int             `json:"goroutines_spawned"`
 }
 
 func (p *pathState) addPC(t *Term) {
@@ -217,6 +227,19 @@ func (i *interpreter) choose(lo, hi int64) int64 {
 	if hi < lo {
 		panic(engineAbort{abInfeasible, "empty choice"})
 	}
+	if r := p.replay; r != nil {
+		v := lo
+		if r.next < len(r.chooses) {
+			v = r.chooses[r.next]
+		}
+		r.next++
+		if v < lo || v > hi {
+			panic(engineAbort{abInconclusive, "engine replay diverged: recorded choice out of range"})
+		}
+		p.chooses = append(p.chooses, v)
+		p.decisions = append(p.decisions, decision{kind: dChoose, val: v})
+		return v
+	}
 	n := len(p.decisions)
 	if n < len(p.prefix) {
 		d := p.prefix[n]
@@ -312,6 +335,12 @@ func (i *interpreter) where() string {
 
 func (i *interpreter) recordViolation(kind, label, msg string, m Model) {
 	p := i.path
+	p.violations = append(p.violations, i.snapshotInputs(kind, label, msg, m))
+}
+
+// snapshotInputs captures the path's inputs under model m as a replayable record.
+func (i *interpreter) snapshotInputs(kind, label, msg string, m Model) violation {
+	p := i.path
 	ev := newEvaluator(m)
 	nd := make([]nondetRec, len(p.nondets))
 	for k, r := range p.nondets {
@@ -330,12 +359,13 @@ func (i *interpreter) recordViolation(kind, label, msg string, m Model) {
 		}
 	}
 	v := violation{
+		Goroutines: p.goroutines,
 		Harness: i.ex.harness, Label: label, Kind: kind, Msg: msg,
 		Trace: append([]string(nil), p.trace...), Nondets: nd,
 		Chooses: append([]int64(nil), p.chooses...), Params: i.P.params,
 		Decision: ds.String(),
 	}
-	p.violations = append(p.violations, v)
+	return v
 }
 
 // ------------------------------------------------------------------ explorer
@@ -382,6 +412,10 @@ type explorer struct {
 	solver       solverStats
 	maxViol      int
 	lossy        int64
+	valSamples   []violation
+	validated    int
+	violKeys     map[string]int
+	rawViolations int64
 }
 
 type pathSample struct {
@@ -393,7 +427,7 @@ type pathSample struct {
 }
 
 func newExplorer(P *program, harness string, fn *ssa.Function, budget time.Duration) *explorer {
-	ex := &explorer{P: P, harness: harness, fn: fn, covers: map[string]int64{}, funcs: map[string]bool{}, maxViol: 8}
+	ex := &explorer{P: P, harness: harness, fn: fn, covers: map[string]int64{}, funcs: map[string]bool{}, maxViol: 8, violKeys: map[string]int{}}
 	ex.cv = sync.NewCond(&ex.mu)
 	ex.deadline = time.Now().Add(budget)
 	return ex
@@ -489,7 +523,7 @@ func (i *interpreter) runPath(w workItem) {
 	ex := i.ex
 	i.tt.reset()
 	i.sol.newScope()
-	p := &pathState{prefix: w.prefix, covers: map[string]bool{}}
+	p := &pathState{prefix: w.prefix, covers: map[string]bool{}, replay: i.replayIn}
 	i.path = p
 	model := w.model
 	if model == nil {
@@ -580,10 +614,17 @@ func (i *interpreter) runPath(w workItem) {
 			ex.covers[c]++
 		}
 		for _, v := range p.violations {
-			if len(ex.violations) < 64 {
+			ex.rawViolations++
+			key := v.Label + "|" + strings.Join(v.Trace, ";")
+			if ex.violKeys[key] < 3 && len(ex.violations) < 600 {
+				ex.violKeys[key]++
 				ex.violations = append(ex.violations, v)
 			}
 		}
+	}
+	if outcome == outOK && p.goroutines == 0 && p.replay == nil &&
+		(len(ex.valSamples) < 2 || (len(ex.valSamples) < 4 && len(p.decisions) > 10 && ex.paths%29 == 0)) {
+		ex.valSamples = append(ex.valSamples, i.snapshotInputs("pass", "sample", "", p.model))
 	}
 	if outcome == outOK && (len(ex.samples) < 3 || (len(ex.samples) < 6 && len(p.decisions) > 8 && ex.paths%17 == 0)) {
 		ex.samples = append(ex.samples, i.sample(p, "ok"))
@@ -635,4 +676,38 @@ func (ex *explorer) run(workers int) {
 	}
 	wg.Wait()
 	sort.Strings(ex.inconclusive)
+}
+
+// engineConcreteReplay re-executes the harness in the engine with every
+// nondeterministic input and every choice (including scheduler decisions)
+// fixed to the recorded counterexample: no symbolic value remains, the real
+// SSA is run concretely under the recorded schedule.  Used only when the
+// schedule cannot be forced on the natively compiled code.
+func engineConcreteReplay(P *program, v violation) (bool, string) {
+	fn := P.pkg.Func("vH_" + v.Harness)
+	if fn == nil {
+		return false, "harness not found"
+	}
+	ex := newExplorer(P, v.Harness, fn, 2*time.Minute)
+	i := &interpreter{P: P, globals: make(map[*ssa.Global]*value), tt: newTermTable(), ex: ex, worker: 0}
+	sol, err := newSolver(P.solverKind, P.solverTimeoutMs)
+	if err != nil {
+		return false, err.Error()
+	}
+	defer sol.close()
+	i.sol = sol
+	i.initOnce()
+	in := &replayInput{chooses: v.Chooses}
+	for _, n := range v.Nondets {
+		in.nondets = append(in.nondets, n.Val)
+	}
+	i.replayIn = in
+	ex.busy = 1
+	i.runPath(workItem{})
+	for _, got := range ex.violations {
+		if got.Label == v.Label && got.Kind == v.Kind {
+			return true, "reproduced by engine-concrete replay under the recorded schedule"
+		}
+	}
+	return false, fmt.Sprintf("engine-concrete replay did not reproduce (%d violations, %d inconclusive)", len(ex.violations), ex.nInconcl)
 }
